@@ -18,12 +18,12 @@ from ..worlds import sigs as WS
 
 PROP = 'C20'
 LEVEL = 'exploration'
-RUNS = {'quick': 16000, 'thorough': 240000}
+RUNS = {'quick': 16000, 'thorough': 48000}
 
 RULE = ('runs generated from the seed, one history per run: a SignatureList L with a model M (Python list), up to 30 steps drawn from mutations (L[i]=s, slice assignment, del L[i], '
         'del L[a:b:c], insert, append, extend, pop, reverse, clear, +=; in-range, negative and out-of-range positions) and observation rounds on L, on a SignatureArray built from M and on an '
         'HDF5Signatures file written and re-loaded from M (len, iteration, sizes, every integer index -n-1..n, slices, integer lists/arrays of all integer dtypes incl. array.array, boolean masks, '
-        'ill-typed and out-of-range indices, sub-collection metadata, caller index unchanged, == across the three and != after perturbation). thorough: all slices over -n-2..n+2 for n<=5. '
+        'ill-typed and out-of-range indices, sub-collection metadata, caller index unchanged, == across the three and != after perturbation). thorough: in the final round all slices (start, stop, step over -n-2..n+2 and None) for n<=4. '
         'A case is (history shape = sequence of operation kinds, observation kind, collection type); non-trivial = history has >=1 mutation before the observation.')
 STATES_MEASURE = 'distinct mutation-kind sequences (history shapes) reached'
 
@@ -81,7 +81,7 @@ def _index_container(ch, rng, idx, n, label):
 	return obj, f'array.array[{code}]', (lambda: array.array(code, obj))
 
 
-def observe(ctx, coll, M, name, ch, L, kspec, dtype, thorough, shape):
+def observe(ctx, coll, M, name, ch, L, kspec, dtype, thorough, shape, all_slices=False):
 	"""One observation round on one collection against the model M."""
 	rng = random.Random(ch.subseed(L + '.obs'))
 	n = len(M)
@@ -123,7 +123,7 @@ def observe(ctx, coll, M, name, ch, L, kspec, dtype, thorough, shape):
 	ctx.stats['observations'] += 2 * n + 2
 	# slices
 	rngv = [None] + list(range(-n - 2, n + 3))
-	if thorough and n <= 5:
+	if thorough and all_slices and n <= 4:
 		slices = [slice(a, b, c) for a in rngv for b in rngv for c in rngv if c != 0]
 	else:
 		slices = []
@@ -380,7 +380,7 @@ def scenario(ctx):
 		sh = ','.join(shape[-12:])
 		for name, coll in (('SignatureList', L), ('SignatureArray', A), ('HDF5Signatures', H)):
 			if coll is not None:
-				observe(ctx, coll, M, name, ch, f'final.{name}', kspec, dtype, thorough, sh)
+				observe(ctx, coll, M, name, ch, f'final.{name}', kspec, dtype, thorough, sh, all_slices=True)
 		if not (L == A):
 			ctx.violation('C20.eq', f'SignatureList == SignatureArray is False after {sh or "no mutation"} although all signatures are equal')
 	finally:
